@@ -39,6 +39,12 @@ func (s *Translator) translateAggregateTraversalCount(query *cypher.RegularQuery
 		return false, nil
 	}
 
+	// The ranked CTE names its count column after the query's own alias, next to its root_id column. An alias with
+	// that spelling would declare the same column twice.
+	if pgsql.Identifier(shape.CountAlias) == aggregateRootID {
+		return false, nil
+	}
+
 	statement, err := s.aggregateTraversalCountQuery(shape)
 	if err != nil {
 		return false, err
